@@ -278,7 +278,8 @@ pub fn render(s: &YSpec, l: &Layout) -> Option<Rendered> {
             text.push_str(gap);
             text.push_str("->");
             text.push_str(gap);
-            text.push_str(&rule_type(r));
+            // the second piece of a re-opened rule spells the same type differently
+            text.push_str(&if from > 0 { rule_type(r).replace(", ", " ,  ") } else { rule_type(r) });
         }
         text.push_str(if gap.contains('\n') || s.kind == Kind::Grmtools { "" } else { gap });
         text.push(':');
